@@ -110,6 +110,8 @@ def run(ctx):
             kind, bb, si, th = d
             if kind == 'c':
                 cs = F.CallSite(body, bb, th)
+                if 'from_residual' in cs.callee:
+                    continue        # the error return of a `?`: not a producer of the success value
                 e = F.Expr('call', cs.callee, [F.Expr.of_operand(body, a, 20) for a in cs.args], cs)
             else:
                 r = th['r']
@@ -327,7 +329,19 @@ def run(ctx):
     # SALT-SYMMETRY compares what is *handed to* the KDF routine with what is written to the header; that is only meaningful if
     # the routine's result really depends on both arguments on every path (a derived-key cache indexed by the password alone
     # hands out a key made with an earlier salt: the file is then encrypted under a key its own header cannot reproduce).
-    kroots = sorted({b.root for b in bodies if b.calls(r'::hash_password_into$')})
+    kroots = set()
+    for b in bodies:
+        if b.calls(r'::hash_password_into$'):
+            # a private step helper belongs to the routine(s) it works for
+            r_ = b.root
+            for _ in range(2):
+                rb_ = prog.bodies.get(r_)
+                cal = {prog.bodies[c].root for c in list(prog.callers_of(r_)) + list(prog.callers_of(r_ + '::{closure#0}'))} - {r_}
+                if rb_ is None or rb_.is_pub or len(cal) != 1:
+                    break
+                r_ = next(iter(cal))        # a step helper with a single caller: judge the caller with the helper spliced in
+            kroots.add(r_)
+    kroots = sorted(kroots)
     if not kroots:
         ctx.anchor_fail('KDF-FUNCTION', 'a function of %s calling Argon2::hash_password_into' % FILE)
     for kr in kroots:
@@ -365,7 +379,7 @@ def run(ctx):
                 desc, ln = ('Ok' if r['k'] == 'agg' else 'value'), th.get('ln')
             nret += 1
             seen[desc] = seen.get(desc, 0) + 1
-            dom = any(kb.dominates(o, bb) for o in oks)
+            dom = any(kb.dominates(o, bb) for o in oks) or (bool(oks) and L.must_pass(kb, [0], oks, [bb])[0])
             ctx.ob('KDF-FUNCTION', 'key-return:%s#%d@%s' % (desc, seen[desc], kr), dom, kb.where(ln),
                    'the key returned at line %s lies behind the Ok edge of hash_password_into(password, salt)' % ln if dom else
                    'a key is returned at line %s without passing hash_password_into(password, salt) on that path: the result is not a function of the '
